@@ -67,7 +67,7 @@ type Tree struct {
 
 // Shapes in generation order; the first len(shapes) trees of a run are one of
 // each, the rest are drawn at random.
-var shapes = []string{"siblings", "same-file-twice", "diamond", "nested-siblings", "flatten-siblings", "chain", "mixed"}
+var shapes = []string{"siblings", "same-file-twice", "diamond", "nested-siblings", "flatten-siblings", "chain", "mixed", "diamond-deep"}
 
 type tgen struct {
 	r    *rand.Rand
@@ -272,7 +272,7 @@ func (g *tgen) names(i int, depth int) []string {
 // FaultKinds are the ways the common file of a fault diamond is broken.
 var FaultKinds = []string{"missing", "version", "no-version", "cycle", "flatten-conflict"}
 
-// plan is the sequence of shapes of a run: three rounds of the seven clash
+// plan is the sequence of shapes of a run: three rounds of the eight clash
 // shapes, two dotenv trees, one fault diamond per fault kind and two more with
 // a missing required include. Longer runs repeat it.
 var plan = func() []string {
@@ -361,6 +361,24 @@ func GenTree(r *rand.Rand, idx int) *Tree {
 		g.link(root, c, false)
 		g.link(b, d, false)
 		g.link(c, d, false)
+	case "diamond-deep":
+		// root -> b, c; both include d in the long form with DIFFERENT vars; d has a long-form include of its own:
+		// the tasks of e exist once per path and each must keep the vars of its own path
+		b, c, d, e := g.addFile(false), g.addFile(false), g.addFile(false), g.addFile(false)
+		g.link(root, b, false)
+		g.link(root, c, false)
+		for _, s := range []int{b, c} {
+			g.link(s, d, false)
+			inc := &t.Files[s].Includes[len(t.Files[s].Includes)-1]
+			inc.Mapping = true
+			inc.Vars = []string{"IV=iv-" + inc.NS, "V=incl-" + inc.NS}
+		}
+		g.link(d, e, false)
+		inc := &t.Files[d].Includes[len(t.Files[d].Includes)-1]
+		inc.Mapping = true
+		if inc.Dir == "" && len(inc.Vars) == 0 {
+			inc.Dir = "./wd0"
+		}
 	case "nested-siblings":
 		a := g.addFile(false)
 		g.link(root, a, false)
